@@ -534,7 +534,7 @@ def shard(ctx):
     M = make_machine(ctx, rows)
     seed = (ctx.seed * 1000 + ctx.shard) * 7 + 3
     with collecting(ctx):
-        run_state_machine_as_test(hypothesis.seed(seed)(M), settings=hyp_settings(6000 if thorough else 60, shrink=True, stateful_steps=40))
+        run_state_machine_as_test(hypothesis.seed(seed)(M), settings=hyp_settings(6000 if thorough else 150, shrink=True, stateful_steps=40))
 
     # documented values (dispatcher table + README), each on a drawn country and on the world
     docs = readme_values()
@@ -623,10 +623,10 @@ def shard(ctx):
             ctx.record_violation(viol)
 
     drive(ctx, bad_case(), lambda c: check_rejection(ctx, c["iso3"], c["options"], "%s %s=%r" % (c["how"], c["family"], c["options"].get(c["family"])), c),
-          400 if thorough else 12, shrink=False, tag="bad")
-    drive(ctx, override_case(), lambda c: check_override(ctx, c), 1500 if thorough else 30, shrink=False, tag="override")
-    drive(ctx, multi_head_case(), lambda c: check_heads_reach_herd(ctx, c), 600 if thorough else 12, tag="heads")
-    drive(ctx, multi_override_case(), lambda c: check_overrides_together(ctx, c), 1500 if thorough else 25, tag="overrides")
+          400 if thorough else 30, shrink=False, tag="bad")
+    drive(ctx, override_case(), lambda c: check_override(ctx, c), 1500 if thorough else 80, shrink=False, tag="override")
+    drive(ctx, multi_head_case(), lambda c: check_heads_reach_herd(ctx, c), 600 if thorough else 30, tag="heads")
+    drive(ctx, multi_override_case(), lambda c: check_overrides_together(ctx, c), 1500 if thorough else 70, tag="overrides")
 
     if thorough:
         # all ordered pairs of setters (finite, enumerated)
